@@ -8,6 +8,7 @@
     M.<a>/<n>.<desc>/<n>.<desc>…   Object.defineProperties(O[a], {n: desc, …})
     C.<p>/<n>.<desc>/…             O.push(Object.create(p = '-' ? null-or-Object.prototype : O[p], {…}))
     F.<a>  S.<a>  E.<a>            Object.freeze / seal / preventExtensions
+    L/<m>/<m>…                     O.push(an object literal); <m> = v.<n>.<v> | g.<n> | s.<n>
     N.<kind>                       O.push(a runtime-created object): fproto func terr err regexp date
     <desc> = N (not an object) | <e>.<c>.<w>.<v>.<g>.<s>   with '-' = field absent;
              e,c,w ∈ 0|1; v = value code; g,s ∈ u (undefined) | b (not callable) | function index
@@ -38,8 +39,16 @@ def devStrict (h : MHeap) : Op → Bool
      | some o => match alookup n o.props with | some prop => !prop.configurable | none => false)
   | _ => false
 
+/-- `Dev_object_literal_duplicate_property` (the C04 region of the same name, seen from the object model):
+    an object literal that names one property as data and as accessor, or twice as getter / twice as setter,
+    is a SyntaxError in ES5 §11.1.5; otto accepts it with ES2015 semantics (the later member redefines) -/
+def devLiteral : Op → Bool
+  | .literal ms => Spec.literalInvalid [] ms
+  | _ => false
+
 def devStep (h : MHeap) (op : Op) (_h' : MHeap) : List String :=
-  if devStrict h op then ["strict_ignored"] else []
+  (if devStrict h op then ["strict_ignored"] else []) ++
+  (if devLiteral op then ["object_literal_duplicate_property"] else [])
 
 def devRun (h : MHeap) : List Op → List String
   | [] => []
@@ -78,6 +87,17 @@ def entries? : List String → Option (List (Name × DescArg))
   | [] => some []
   | s :: t => do let e ← entry? s; let r ← entries? t; pure (e :: r)
 
+def member? (s : String) : Option LMember :=
+  match s.splitOn "." with
+  | ["v", n, v] => do pure (.value, ← nat? n, ← nat? v)
+  | ["g", n] => do pure (.get, ← nat? n, 0)
+  | ["s", n] => do pure (.set, ← nat? n, 0)
+  | _ => none
+
+def members? : List String → Option (List LMember)
+  | [] => some []
+  | s :: t => do let m ← member? s; let r ← members? t; pure (m :: r)
+
 def bool? : String → Option Bool
   | "0" => some false | "1" => some true | _ => none
 
@@ -86,6 +106,7 @@ def op? (tok : String) : Option Op :=
   | [] => none
   | hd :: ents =>
     match hd.splitOn ".", ents with
+    | ["L"], ms => do pure (.literal (← members? ms))
     | ["N", "fproto"], [] => some (.native .fproto)
     | ["N", "func"], [] => some (.native .func)
     | ["N", "terr"], [] => some (.native .terr)
@@ -112,7 +133,7 @@ def ops? : List String → Option (List Op)
 def b01 (b : Bool) : String := if b then "1" else "0"
 
 def outS : Outcome → String
-  | .ok => "ok" | .typeError => "T" | .bool true => "t" | .bool false => "f" | .bad => "bad"
+  | .ok => "ok" | .typeError => "T" | .bool true => "t" | .bool false => "f" | .bad => "bad" | .syntaxError => "S"
 
 def joinOr (sep : String) (l : List String) : String :=
   if l.isEmpty then "-" else sep.intercalate l
